@@ -168,7 +168,7 @@ def gen_cases(seed, chunk, n, tier):
 
 
 def run(ctx):
-    n = 500 if ctx.tier == "quick" else 12000
+    n = 1500 if ctx.tier == "quick" else 16000
     stream.run_stream(ctx, "lazy", "harness.props.c09", "gen_cases", n, per_chunk=32,
                       canon_kw=dict(drop_zero=True))
 
